@@ -175,12 +175,38 @@ type c15Six struct {
 	F map[string]int
 }
 
+// c15Nums: every numeric width, so that number texts which do not survive a
+// trip through float64 (or through a generic JSON value) have somewhere to land.
+type c15Nums struct {
+	I64 int64
+	U64 uint64
+	I32 int32
+	U8  uint8
+	F32 float32
+	F64 float64
+	P   *int64
+	N   json.Number
+	A   any
+	R   json.RawMessage
+	L   []int64
+	M   map[string]uint64
+}
+type c15NumsTag struct {
+	ID    int64           `json:"id"`
+	Count uint64          `json:"count,omitempty"`
+	Skip  int64           `json:"-"`
+	Q     int64           `json:"q,string"`
+	In    C15Inner        `json:"in"`
+	Raw   json.RawMessage `json:"raw"`
+}
+
 var (
 	c15rawType    = reflect.TypeOf(json.RawMessage(nil))
 	c15timeType   = reflect.TypeOf(time.Time{})
 	c15customType = reflect.TypeOf(c15Custom{})
 	c15errorType  = reflect.TypeOf((*error)(nil)).Elem()
 	c15innerType  = reflect.TypeOf(C15Inner{})
+	c15numberType = reflect.TypeOf(json.Number(""))
 )
 
 func c15T[T any]() reflect.Type { return reflect.TypeOf((*T)(nil)).Elem() }
@@ -199,6 +225,7 @@ func c15structZoo() []reflect.Type {
 			B string
 		}](),
 		c15T[struct{}](),
+		c15T[c15Nums](), c15T[c15NumsTag](),
 	}
 }
 
@@ -221,6 +248,7 @@ var c15fieldTypes = []reflect.Type{
 	c15T[int](), c15T[string](), c15T[bool](), c15T[float64](), c15T[[]int](), c15T[map[string]int](),
 	c15T[*int](), c15T[any](), c15T[json.RawMessage](), c15T[C15Inner](), c15T[*C15Inner](),
 	c15T[[]C15Inner](), c15T[[2]int](), c15T[int8](), c15T[*string](), c15T[[]string](),
+	c15T[int64](), c15T[uint64](), c15T[*int64](), c15T[[]int64](), c15T[json.Number](),
 }
 
 // c15genStruct builds a struct type with 0..5 exported fields F0..; tags are
@@ -366,6 +394,8 @@ func c15good(t reflect.Type, r *rand.Rand, depth int) string {
 		return []string{`"2024-01-02T03:04:05Z"`, `"1999-12-31T23:59:59.5Z"`}[r.IntN(2)]
 	case c15customType:
 		return []string{`{"k":1,"j":2.5}`, `{}`, `{"z":-1}`}[r.IntN(3)]
+	case c15numberType:
+		return []string{`12`, `-1.50`, `"7"`, `1e2`}[r.IntN(4)]
 	}
 	switch t.Kind() {
 	case reflect.Bool:
@@ -453,6 +483,8 @@ func c15bad(t reflect.Type, r *rand.Rand) (string, bool) {
 		return `"not a time"`, true
 	case c15customType:
 		return `{"k":"v"}`, true
+	case c15numberType:
+		return []string{`"x"`, `true`, `{}`, `[1]`}[r.IntN(4)], true
 	}
 	switch t.Kind() {
 	case reflect.Bool:
@@ -482,6 +514,97 @@ func c15bad(t reflect.Type, r *rand.Rand) (string, bool) {
 		return []string{`5`, `"x"`, `true`}[r.IntN(3)], true
 	}
 	return `1`, true // chan, func
+}
+
+// ---- number texts ---------------------------------------------------------------
+
+// c15numFixed are JSON number texts whose meaning depends on more than their
+// float64 value: integers that need more than 53 bits, the limits of the
+// integer widths and their neighbours, and spellings with a fraction or an
+// exponent (which encoding/json refuses for integer targets although the value
+// is integral), negative zero, and values at the edge of float32 / float64.
+var c15numFixed = []string{
+	"9007199254740993", "-9007199254740993", "9007199254740992", "1234567890123456789", "-1234567890123456789",
+	"9223372036854775807", "-9223372036854775808", "-9223372036854775807", "9223372036854775808", "-9223372036854775809",
+	"18446744073709551615", "18446744073709551616", "100000000000000000000", "123456789012345678901234567890",
+	"2.0", "1e3", "-0", "0.0", "-0.0", "1E2", "-1e0", "1.0e0", "2e-0", "0.1", "1e-1", "0.30000000000000004",
+	"2147483647", "2147483648", "-2147483649", "4294967296", "127", "128", "-129", "255", "256",
+	"16777217", "3.4028235e38", "3.5e38", "1.7976931348623157e308", "5e-324", "1e-400",
+}
+
+// c15numTexts returns the fixed list plus seeded members of the same classes.
+func c15numTexts(r *rand.Rand) []string {
+	out := append([]string(nil), c15numFixed...)
+	for i := 0; i < 3; i++ {
+		out = append(out, fmt.Sprint(uint64(1)<<53+uint64(r.IntN(1<<20))*2+1)) // odd, > 2^53
+		out = append(out, fmt.Sprint(int64(r.Uint64()|1<<62)), fmt.Sprint(-int64(r.Uint64()>>1|1<<61)))
+		out = append(out, fmt.Sprint(r.Uint64()|1<<63))
+		small := r.IntN(2000) - 1000
+		out = append(out, fmt.Sprint(small)+[]string{".0", "e0", "E+0", ".000", "e-0"}[r.IntN(5)])
+	}
+	return out
+}
+
+// c15numInto returns a JSON text shaped for type t that carries the number
+// text num at its numeric leaves (t itself, the elements of a slice / array /
+// map, the first numeric field of a struct), if t has one.
+func c15numInto(t reflect.Type, num string, depth int) (string, bool) {
+	switch t {
+	case c15rawType, c15numberType:
+		return num, true
+	case c15timeType, c15customType:
+		return "", false
+	}
+	if depth > 4 {
+		return "", false
+	}
+	switch t.Kind() {
+	case reflect.Int, reflect.Int8, reflect.Int16, reflect.Int32, reflect.Int64,
+		reflect.Uint, reflect.Uint8, reflect.Uint16, reflect.Uint32, reflect.Uint64,
+		reflect.Float32, reflect.Float64:
+		return num, true
+	case reflect.Interface:
+		if t.NumMethod() == 0 {
+			return num, true
+		}
+	case reflect.Pointer:
+		return c15numInto(t.Elem(), num, depth+1)
+	case reflect.Slice:
+		if e, ok := c15numInto(t.Elem(), num, depth+1); ok {
+			return "[" + e + "]", true
+		}
+	case reflect.Array:
+		if e, ok := c15numInto(t.Elem(), num, depth+1); ok && t.Len() > 0 {
+			return "[" + strings.TrimSuffix(strings.Repeat(e+",", t.Len()), ",") + "]", true
+		}
+	case reflect.Map:
+		if t.Key().Kind() == reflect.String {
+			if e, ok := c15numInto(t.Elem(), num, depth+1); ok {
+				return `{"k":` + e + "}", true
+			}
+		}
+	case reflect.Struct:
+		for _, f := range c15jsonFields(t) {
+			if e, ok := c15numField(f, num, depth+1); ok {
+				return "{" + c15q(f.name) + ":" + e + "}", true
+			}
+		}
+	}
+	return "", false
+}
+
+// c15numField is c15numInto for a struct field (a `,string` field gets the
+// number quoted).
+func c15numField(f c15jf, num string, depth int) (string, bool) {
+	e, ok := c15numInto(f.typ, num, depth)
+	if ok && f.quoted && e == num {
+		switch f.typ.Kind() {
+		case reflect.Interface, reflect.Slice: // the option does not apply
+		default:
+			return c15q(e), true
+		}
+	}
+	return e, ok
 }
 
 // ---- comparison ----------------------------------------------------------------
